@@ -67,6 +67,7 @@ func init() {
 
 func runC01(p *Program, r *Report) {
 	c01buf(p, r, "C01.buf")
+	cWriterHandle(p, r, "C01.handle")
 	c17slice(p, r, "C01.maskdst")
 	c01dict(p, r, "C01.dict")
 	c01wreset(p, r, "C01.wreset")
